@@ -675,6 +675,15 @@ func runC14(w *World, r *Report) {
 	var scan func(fn *ssa.Function)
 	scan = func(fn *ssa.Function) {
 		forEachInstr(fn, func(b *ssa.BasicBlock, ins ssa.Instruction) {
+			// round 9: a closure of the driver that assigns a variable it captured (`binModel = pruned(binModel)` with `=` where `:=`
+			// was meant) replaces what the closures of the targets generated after it read
+			if st, ok := ins.(*ssa.Store); ok && fn.Parent() != nil {
+				if fv, ok := st.Addr.(*ssa.FreeVar); ok {
+					if _, isFn := fv.Type().(*types.Pointer).Elem().Underlying().(*types.Signature); !isFn && !isErrorType(fv.Type().(*types.Pointer).Elem()) {
+						r.fail(ruleDrv, fmt.Sprintf("%s assigns the captured variable of type %s", fnKey(fn.Parent()), types.TypeString(fv.Type().(*types.Pointer).Elem(), shortQual)), w.instrPos(ins), "a closure of the driver assigns a variable captured from "+fnKey(fn.Parent())+" ("+fv.Name()+"): the targets generated after this one read what it stored - which files they produce depends on which other targets were requested")
+					}
+				}
+			}
 			if mc, ok := ins.(*ssa.MakeClosure); ok {
 				for _, bnd := range mc.Bindings {
 					t := bnd.Type()
